@@ -35,3 +35,26 @@ fn c17_meta_from_bytes_any_slot() {
     }
     core::mem::forget(r);
 }
+
+/// Arbitrary-state constructor (no validation, caller supplies the invariant).
+pub(crate) fn mk_meta(id: &str, start: usize, len: usize, reserved: usize, state: u8) -> RegionMetadata {
+    let st = match state {
+        0 => RegionState::new_clean(),
+        1 => {
+            let s = RegionState::new_clean();
+            s.set_needs_flush();
+            s
+        }
+        _ => RegionState::new_dirty(),
+    };
+    RegionMetadata { start, len, reserved, id: String::from(id), state: st }
+}
+pub(crate) fn state_of(m: &RegionMetadata) -> u8 {
+    if m.state.is_clean() { 0 } else if m.state.needs_flush() { 1 } else { 2 }
+}
+
+pub(crate) fn set_geom(m: &mut RegionMetadata, start: usize, len: usize, reserved: usize) {
+    m.start = start;
+    m.len = len;
+    m.reserved = reserved;
+}
